@@ -295,6 +295,32 @@ def switch_family():
                 if not (close(new.get_score(), ref_new.get_score()) and close(w, ref_w) and close(w, new.get_score() - tr.get_score())):
                     fail("switch.edit (unchanged index): score / weight are not those of the edited (clamped) branch", idx=idx, n=n,
                          score=new.get_score(), want=ref_new.get_score(), w=w, want_w=ref_w)
+                # project on everything is the executed branch's score, on nothing 0; the sub-execution reached through the
+                # switch is the executed branch's (single-site branches: its score is the whole score, its value the choice)
+                try:
+                    p_all, p_none = sw.project(KEY, tr, S.all()), sw.project(KEY, tr, S.none())
+                    if not (close(p_all, tr.get_score()) and close(p_none, 0.0)):
+                        fail("switch.project: all -> executed (clamped) branch's score, none -> 0", idx=idx, n=n, got=p_all, want=tr.get_score())
+                except (IndexError, ValueError, TypeError) as e:
+                    fail("switch.project raises", idx=idx, n=n, err=type(e).__name__)
+                try:
+                    sub = tr.get_subtrace(name)
+                    if not (close(sub.get_score(), tr.get_score()) and close(sub.get_choices()[()], ref.get_choices()[name])):
+                        fail("switch: get_subtrace is not the sub-execution of the executed (clamped) branch", idx=idx, n=n,
+                             score=sub.get_score(), want=tr.get_score())
+                except (IndexError, ValueError, TypeError, KeyError) as e:
+                    fail("switch: get_subtrace raises", idx=idx, n=n, err=type(e).__name__)
+        # an update whose arguments are all tagged UnknownChange while the index keeps its value: the same result with a
+        # Python-int index (eager) and with a traced one (under jit)
+        def do_update(key, tr, i, *rest):
+            return tr.update(key, C.kw(u=0.25, v=0.25, w=0.25), Diff.unknown_change((i,) + rest))[:2]
+        for idx in range(n):
+            args = (idx,) + tuple((0.5 * (j + 1),) for j in range(n))
+            te, tj = sw.simulate(KEY, args), jax.jit(sw.simulate)(KEY, args)
+            (ne, we), (nj, wj) = do_update(KEY, te, *args), jax.jit(do_update)(KEY, tj, *args)
+            if not (close(we, wj) and close(ne.get_score(), nj.get_score()) and close(ne.get_retval(), nj.get_retval())):
+                fail("switch.edit (all arguments tagged changed, index value unchanged): eager Python-int index and traced index differ",
+                     idx=idx, n=n, eager_w=we, jit_w=wj, eager_score=ne.get_score(), jit_score=nj.get_score())
     # or_else: the if-branch iff the flag is true - Python bools and arrays
     b_if, b_else = gen(lambda m: normal(m, 1.0) @ "a"), gen(lambda m: normal(m, 0.1) @ "b")
     oe = b_if.or_else(b_else)
@@ -339,6 +365,22 @@ def vmap_family():
             want = normal.assess(C.choice(2.0), (xs[1], 1.0))[0]
             if not close(w, want) or not close(g.get_choices()[1, "x"], 2.0):
                 fail("vmap.generate: a constraint at index 1 must weigh/affect only element 1", w=w, want=want)
+            # every kind of top-level index: each Python int (the last one included), a scalar array, an array address that
+            # is a permutation of the indices, an array address naming some of the indices
+            for nm, c, cons in [(f"int {i}", C.empty().at[i, "x"].set(2.0 + i), {i: 2.0 + i}) for i in range(3)] + [
+                    ("scalar array 2", C.empty().at[jnp.array(2), "x"].set(4.0), {2: 4.0}),
+                    ("array [2,0,1]", C.empty().at[jnp.array([2, 0, 1]), "x"].set(jnp.array([4.0, 2.0, 3.0])), {0: 2.0, 1: 3.0, 2: 4.0}),
+                    ("array [2,0]", C.empty().at[jnp.array([2, 0]), "x"].set(jnp.array([4.0, 2.0])), {0: 2.0, 2: 4.0})]:
+                g, w = v.importance(KEY, c, (xs,))
+                want = sum(normal.assess(C.choice(x), (xs[i], 1.0))[0] for i, x in cons.items())
+                if not close(w, want) or not all(close(g.get_choices()[i, "x"], x) for i, x in cons.items()):
+                    fail("vmap.generate: element i is not generated under the constraint's sub-map at index i", index=nm, w=w, want=want)
+            # project: the sum of the element projections under the same selection
+            el = [inner.simulate(ks[i], (xs[i],)) for i in range(3)]
+            for nm, s_ in (("S['x']", S.at["x"]), ("~S['x']", ~S.at["x"]), ("S['y'] | S['x']", S.at["y"] | S.at["x"]), ("none", S.none()), ("all", S.all())):
+                got, want = v.project(KEY, tr, s_), sum(inner.project(KEY, e, s_) for e in el)
+                if not close(got, want):
+                    fail("vmap.project: not the sum of the element projections under the same selection", sel=nm, got=got, want=want)
             for pos in (0, 1, 2):
                 from genjax._src.core.generative.concepts import IndexRequest
                 new, w, rd, bwd = v.edit(KEY, tr, IndexRequest(jnp.array(pos), Update(C.kw(x=1.0))), Diff.no_change((xs,)))
@@ -503,7 +545,7 @@ def static_family():
                 fail("static.update: backward request does not restore", w=w, w2=w2)
     for sel in (S.at["x"], S.at["sub", "y"], ~S.at["x"], S.none(), S.all()):
       for rad in (Diff.no_change((0.2,)), Diff.unknown_change((0.6,))):
-        new, w, rd, bwd = model.edit(KEY, tr, Regenerate(sel), rad)
+        new, w, rd, bwd = model.edit(jrand.fold_in(KEY, 98), tr, Regenerate(sel), rad)
         wf(new, "static.regenerate")
         if not close(w, new.get_score() - tr.get_score()):
             fail("static.regenerate: weight != score change", sel=sel, w=w, delta=new.get_score() - tr.get_score())
@@ -531,6 +573,50 @@ def static_family():
         got = shared_prefix.project(KEY, t, s_)
         if not close(got, want):
             fail("static.project: not the sum of the selected choices' log-densities (addresses sharing a prefix)", sel=nm, got=got, want=want)
+
+    # two tuple addresses sharing a first component with another address traced between them
+    @gen
+    def interleaved():
+        b = normal(0.0, 1.0) @ ("a", "b")
+        d = normal(b, 1.0) @ "d"
+        c = normal(d, 1.0) @ ("a", "c")
+        e = normal(c, 1.0) @ ("f", "g", "h")
+        return normal(e, 1.0) @ ("f", "g", "i")
+    ti = interleaved.simulate(KEY, ())
+    chi = ti.get_choices()
+    for a_ in (("a", "b"), "d", ("a", "c"), ("f", "g", "h"), ("f", "g", "i")):
+        sub = ti.get_subtrace(a_)           # (a StaticTrace stores the sub-trace under the full address)
+        if a_ not in chi or not close(chi[a_], sub.get_retval()):
+            fail("StaticTrace.get_choices: a traced address is missing from (or has another value in) the choice map", addr=a_)
+    wf(ti, "static.simulate[interleaved tuple addresses]")
+
+    # a nested call site and selections reaching into the callee: regenerate keeps the unselected choices of the callee,
+    # project sums the selected ones (complements and intersections that select strictly below the call site)
+    @gen
+    def outer(m):
+        x = normal(m, 1.0) @ "x"
+        s = inner(x) @ "sub"
+        return s
+    to = outer.simulate(KEY, (0.1,))
+    cho = to.get_choices()
+    lpo = {("x",): normal.assess(C.choice(cho["x"]), (0.1, 1.0))[0],
+           ("sub", "x"): normal.assess(C.choice(cho["sub", "x"]), (cho["x"], 1.0))[0],
+           ("sub", "y"): normal.assess(C.choice(cho["sub", "y"]), (cho["sub", "x"], 0.5))[0]}
+    for nm, s_ in (("~S['sub','x']", ~S.at["sub", "x"]), ("S['sub','x'] & S.all()", S.at["sub", "x"] & S.all()),
+                   ("S['sub','y'] & S['sub']", S.at["sub", "y"] & S.at["sub"]), ("S['sub'] & ~S['sub','y']", S.at["sub"] & ~S.at["sub", "y"]),
+                   ("S['sub','x'] | S['x']", S.at["sub", "x"] | S.at["x"]), ("S['sub']", S.at["sub"])):
+        want = sum(v for a, v in lpo.items() if s_[a])
+        got = outer.project(KEY, to, s_)
+        if not close(got, want):
+            fail("static.project through a call site: not the sum of the selected choices' log-densities", sel=nm, got=got, want=want)
+        # (a key other than the one the trace was simulated with: the same key would regenerate the same values)
+        new, w, rd, bwd = outer.edit(jrand.fold_in(KEY, 99), to, Regenerate(s_), Diff.no_change((0.1,)))
+        for a in lpo:
+            if not s_[a] and not close(new.get_choices()[a], cho[a]):
+                fail("static.regenerate through a call site: an unselected choice of the callee changed", sel=nm, addr=a)
+        if not close(w, new.get_score() - to.get_score()):
+            fail("static.regenerate through a call site: weight != score change", sel=nm, w=w)
+        wf(new, "static.regenerate through a call site")
 
     @gen
     def dup():
@@ -629,6 +715,18 @@ def closure_family():
     t2 = kw.simulate(KEY, (2.0,))
     if not close(t2.get_score(), normal.assess(C.choice(t2.get_choices()["x"]), (3.0, 2.0))[0]):
         fail("closure with kwargs: score is not the density with the keyword merged")
+    # partially applied arguments together with a keyword argument, and handle_kwargs of a partially applied function
+    pa = m.partial_apply(1.0)
+    want = m.assess(C.kw(x=0.3), (1.0, 2.0, 3.0))[0]
+    for nm, thunk in (("partial_apply(1.0)(2.0, scale=3.0).assess", lambda: pa(2.0, scale=3.0).assess(C.kw(x=0.3), ())[0]),
+                      ("partial_apply(1.0).handle_kwargs().assess", lambda: pa.handle_kwargs().assess(C.kw(x=0.3), ((2.0,), {"scale": 3.0}))[0]),
+                      ("handle_kwargs().assess", lambda: m.handle_kwargs().assess(C.kw(x=0.3), ((1.0, 2.0), {"scale": 3.0}))[0])):
+        try:
+            got = thunk()
+            if not close(got, want):
+                fail("handle_kwargs: differs from the positional call with the stored arguments prepended and the keywords merged", call=nm, got=got, want=want)
+        except TypeError as e:
+            fail("handle_kwargs: raises where the positional call does not", call=nm, err=str(e).splitlines()[0][:120])
 
 
 def smc_family():
@@ -1428,6 +1526,10 @@ def vi_family():
             mean, se = float(jnp.mean(g)), float(jnp.std(g) / jnp.sqrt(N))
             if abs(mean - w) > 6 * se + 2e-3:
                 fail("ELBO gradient estimate (conjugate Gaussian pair, reparameterised guide) is biased", wrt=nm, params=(a, b, s_), mean=mean, want=w)
+    # the objectives read the log-weight of Importance with the guide as proposal (C30's second mechanism): its per-particle
+    # weight identities, a guide that proposes a subset of the latents included (the values, not the gradients: there the
+    # model's own sampler fills in the rest, which the ADEV estimators do not differentiate through)
+    smc_family()
 
 
 def hmc_family():
@@ -1625,7 +1727,7 @@ def selection_family():
     random.seed(0)
     pool = terms
     for a in atoms:
-        for t in random.sample(pool, 40):
+        for t in pool:
             for op, fn, py in (("|", lambda p, q: p | q, lambda p, q: p or q), ("&", lambda p, q: p & q, lambda p, q: p and q)):
                 r = fn(a, t)
                 for ad in addrs:
@@ -1640,14 +1742,14 @@ def selection_family():
 
 
 FAMILIES = [
-    (("C19.Mask.", "Mask._or_idx"), mask_algebra_family), (("C18.",), selection_family), ((".Diff.",), diff_family),
+    (("C19.Mask.", "Mask._or_idx"), mask_algebra_family), (("C18.", ".AndSel.", ".OrSel.", ".ComplementSel."), selection_family), ((".Diff.",), diff_family),
     (("C30.",), vi_family), (("C29.", "TailCallADEVPrimitive"), adev_family), (("C28.", "sample_momenta"), hmc_family), (("C20.", "FlagOp", "multi_switch", "tree_choose"), staging_family), (("C33.",), invalid_subset_family),
     (("C38.",), derived_family), (("C36.",), stateful_family), (("C09.", "incremental"), incremental_family), (("C04.",), key_family), (("C21.",), pytree_family), (("C25.", "Marginal"), marginal_family), (("C27.", "Rejuvenate"), rejuvenate_family), (("C31.",), time_travel_family), (("C17.",), choice_map_family), (("C26.",), smc_family),
     (("MaskCombinator", "MaskTrace"), mask_family), (("Distribution", "ExactDensity", "C24."), distribution_family),
     (("Dimap",), dimap_family), (("Switch", ".or_else.", ".mix."), switch_family), (("Vmap", "repeat"), vmap_family),
     (("Scan", "iterate", "accumulate", "reduce", "masked_iterate"), scan_family),
-    (("Handler", "StaticGenerativeFunction", "StaticTrace"), static_family),
     (("GenerativeFunctionClosure", "IgnoreKwargs", "partial_apply", "handle_kwargs"), closure_family),
+    (("Handler", "StaticGenerativeFunction", "StaticTrace"), static_family),
 ]
 
 
